@@ -15,14 +15,15 @@ struct Step {
     snap: Vec<i128>,
     ttl: Option<u128>,
     sf: bool,
+    lost: bool,
 }
 
 fn step_json(s: &Step) -> String {
     let snap: Vec<String> = s.snap.iter().map(|x| x.to_string()).collect();
     format!(
-        "{{\"req\":{},\"out\":{},\"cleaned\":{},\"len\":{},\"snap\":[{}],\"ttl\":{},\"sf\":{}}}",
+        "{{\"req\":{},\"out\":{},\"cleaned\":{},\"len\":{},\"snap\":[{}],\"ttl\":{},\"sf\":{},\"lost\":{}}}",
         s.req.json(), s.out.json(), s.cleaned, s.len, snap.join(","),
-        match s.ttl { Some(t) => format!("\"{t}\""), None => "null".into() }, s.sf
+        match s.ttl { Some(t) => format!("\"{t}\""), None => "null".into() }, s.sf, s.lost
     )
 }
 
@@ -30,9 +31,9 @@ fn do_step(lim: &mut Lim, req: &Req) -> Step {
     let c0 = lim.cleanups();
     let out = lim.call(req);
     if lim.dead {
-        return Step { req: req.clone(), out, cleaned: false, len: 0, snap: vec![], ttl: None, sf: false };
+        return Step { req: req.clone(), out, cleaned: false, len: 0, snap: vec![], ttl: None, sf: false, lost: false };
     }
-    Step { req: req.clone(), out, cleaned: lim.cleanups() != c0, len: lim.len(), snap: lim.snapshot(), ttl: lim.last_ttl(), sf: lim.last_get_stale() }
+    Step { req: req.clone(), out, cleaned: lim.cleanups() != c0, len: lim.len(), snap: lim.snapshot(), ttl: lim.last_ttl(), sf: lim.last_get_stale(), lost: lim.last_get_lost() }
 }
 
 fn replay(cfg: &Cfg, reqs: &[Req]) -> Lim {
@@ -412,6 +413,22 @@ fn mode_interleave(rng: &mut Rng, n_cases: u64, max_len: u64, noise_keys: u64, d
                     if o != s.out {
                         viol.push(Viol { prop: "C05", step: i, what: format!("key answered {:?} in the interleaved history but {:?} when run alone ({})", s.out, o, solo_cfg.json()) });
                         break;
+                    }
+                }
+            }
+        }
+        // every OTHER key as well (the property is about each key's projection): with a globally ordered history the answers
+        // of a noise key, whatever its limits, equal its solo run too
+        if !disorder && viol.is_empty() {
+            let mut by_key: std::collections::BTreeMap<u64, Vec<usize>> = std::collections::BTreeMap::new();
+            for (i, s) in steps.iter().enumerate() { if !vkeys.iter().take(nvict as usize).any(|&k| k == s.req.key) { by_key.entry(s.req.key).or_default().push(i); } }
+            'keys: for (_, idx) in by_key.iter().filter(|(_, v)| v.len() >= 2) {
+                let mut solo = Lim::new(&cfg);
+                for &i in idx {
+                    let o = solo.call(&steps[i].req);
+                    if o != steps[i].out {
+                        viol.push(Viol { prop: "C05", step: i, what: format!("key answered {:?} in the interleaved history but {:?} when run alone ({})", steps[i].out, o, cfg.json()) });
+                        break 'keys;
                     }
                 }
             }
